@@ -79,7 +79,7 @@ class Layout:
         pango.pango_context_set_base_dir(
             pango_context, PANGO_DIRECTION[style['direction']])
 
-        if style['font_language_override'] != 'normal':
+        if style['font_language_override'] not in ('normal', ''):
             lang_p, lang = unicode_to_char_p(LST_TO_ISO.get(
                 style['font_language_override'].lower(),
                 style['font_language_override']))
